@@ -155,10 +155,21 @@ func c16() []*Ob {
 					}
 					return false
 				}
+				// the loop over the shard responses: in searchStores itself, or in a private helper it hands the response
+				// channel to (the helper's results are then what searchStores decides on)
+				lf := fn
+				if len(CallsIn(fn, Callee("proxy/search.responseToQPR"))) == 0 {
+					for _, call := range CallsIn(fn, nil) {
+						h := StaticCallee(call)
+						if h != nil && h.Blocks != nil && c.P.InRepo(h) && len(CallsIn(h, Callee("proxy/search.responseToQPR"))) > 0 {
+							lf = h
+						}
+					}
+				}
 				// QPR appended only under Err == nil
 				conv := Callee("proxy/search.responseToQPR")
 				n := 0
-				for _, call := range CallsIn(fn, conv) {
+				for _, call := range CallsIn(lf, conv) {
 					n++
 					okNil := false
 					for _, f := range FactsAtInstr(call.(ssa.Instruction)) {
@@ -225,7 +236,7 @@ func c16() []*Ob {
 					return
 				}
 				collected := false
-				for _, ap := range CallsIn(fn, Callee("builtin.append")) {
+				for _, ap := range CallsIn(lf, Callee("builtin.append")) {
 					if IsErrorType(elemType(ap.Common().Args[0])) {
 						for _, a := range ap.Common().Args[1:] {
 							if DerivesFrom(a, isErrField) {
@@ -241,7 +252,7 @@ func c16() []*Ob {
 				// ... on every way through the loop body: an iteration that saw an error goes on to the next
 				// response only after it has appended the error
 				var errApps []ssa.Instruction
-				for _, ap := range CallsIn(fn, Callee("builtin.append")) {
+				for _, ap := range CallsIn(lf, Callee("builtin.append")) {
 					if IsErrorType(elemType(ap.Common().Args[0])) {
 						for _, a := range ap.Common().Args[1:] {
 							if DerivesFrom(a, isErrField) {
@@ -250,7 +261,7 @@ func c16() []*Ob {
 						}
 					}
 				}
-				for _, b := range fn.Blocks {
+				for _, b := range lf.Blocks {
 					iff, ok := b.Instrs[len(b.Instrs)-1].(*ssa.If)
 					if !ok {
 						continue
